@@ -48,38 +48,68 @@ func runC08(c *Ctx) {
 			digestFns = append(digestFns, fr)
 		}
 	}
-	// (1)
+	// (1) every walk that feeds file nodes into a digest (its callback builds bufcas file nodes / content digests) walks
+	// the filtered bucket — wherever the walk lives (the digest functions or a helper they share)
 	walks := 0
-	for _, fr := range digestFns {
-		if fr.Obj == nil {
-			continue
-		}
-		sf := p.SSAFunc(fr.Obj)
-		if sf == nil {
-			continue
-		}
-		for _, call := range callsIn(sf) {
-			if !calleeIs(staticCalleeObj(call.Call), "private/pkg/storage", "WalkReadObjects") {
-				continue
+	for _, sf := range p.SSAFuncsOf([]*packages.Package{pkM}) {
+		for _, f := range allSSAFuncs(sf) {
+			for _, call := range callsIn(f) {
+				if !calleeIs(staticCalleeObj(call.Call), "private/pkg/storage", "WalkReadObjects") || len(call.Call.Args) < 4 {
+					continue
+				}
+				// is it a digest walk?
+				var cb *ssa.Function
+				switch x := call.Call.Args[3].(type) {
+				case *ssa.MakeClosure:
+					cb, _ = x.Fn.(*ssa.Function)
+				case *ssa.Function:
+					cb = x
+				}
+				digestWalk := false
+				if cb != nil {
+					for _, cc := range callsDeep(cb) {
+						if fn := staticCalleeObj(cc.Call); fn != nil && fn.Pkg() != nil && strings.HasSuffix(fn.Pkg().Path(), "/bufcas") && (fn.Name() == "NewFileNode" || fn.Name() == "NewDigestForContent") {
+							digestWalk = true
+						}
+					}
+				}
+				if !digestWalk {
+					continue
+				}
+				walks++
+				bucket := stripConv(call.Call.Args[1])
+				ok := false
+				if fc, isCall := bucket.(*ssa.Call); isCall && calleeIs(staticCalleeObj(&fc.Call), "private/pkg/storage", "FilterReadBucket") {
+					for _, m := range fc.Call.Args[1:] {
+						if dependsOnCall(m, func(cc *ssa.CallCommon) bool {
+							fn := staticCalleeObj(cc)
+							return fn != nil && fn.Name() == "getStorageMatcher"
+						}) {
+							ok = true
+						}
+					}
+				}
+				c.Ob("FILTER-IN-WALK", fmt.Sprintf("digest-walk#%d", walks), call.Pos(), ok, true, "in %s the bucket walked for the digest is storage.FilterReadBucket(bucket, getStorageMatcher(…)): %v", ssaFuncName(f), ok)
 			}
-			walks++
-			bucket := stripConv(call.Call.Args[1])
-			ok := false
-			if fc, isCall := bucket.(*ssa.Call); isCall && calleeIs(staticCalleeObj(&fc.Call), "private/pkg/storage", "FilterReadBucket") {
-				for _, m := range fc.Call.Args[1:] {
-					if dependsOnCall(m, func(cc *ssa.CallCommon) bool {
-						fn := staticCalleeObj(cc)
-						return fn != nil && fn.Name() == "getStorageMatcher"
-					}) {
-						ok = true
+		}
+	}
+	if walks < 1 {
+		c.Fail("FILTER-IN-WALK", "walk-count", token.NoPos, "no walk feeding bufcas file nodes found in bufmodule")
+	}
+	// both digest entry points reach such a walk
+	for _, name := range []string{"getB4Digest", "getFilesDigestForB5Digest"} {
+		fr := p.Func("private/bufpkg/bufmodule", name)
+		reaches := false
+		if fr != nil && fr.Obj != nil {
+			for _, f := range reachSSA(p.SSAFunc(fr.Obj), 2) {
+				for _, call := range callsIn(f) {
+					if calleeIs(staticCalleeObj(call.Call), "private/pkg/storage", "WalkReadObjects") {
+						reaches = true
 					}
 				}
 			}
-			c.Ob("FILTER-IN-WALK", fr.ID(), call.Pos(), ok, true, "the walked bucket is storage.FilterReadBucket(bucket, getStorageMatcher(…)): %v", ok)
 		}
-	}
-	if walks < 2 {
-		c.Fail("FILTER-IN-WALK", "walk-count", token.NoPos, "only %d digest walks found (expected the b4 and b5 paths)", walks)
+		c.Ob("FILTER-IN-WALK", name+"/walks", token.NoPos, reaches, true, "%s reaches a storage.WalkReadObjects (directly or through a helper): %v", name, reaches)
 	}
 
 	// (2) order independence
@@ -104,7 +134,7 @@ func runC08(c *Ctx) {
 		sorted := false
 		ast.Inspect(nm.Decl.Body, func(n ast.Node) bool {
 			if call, ok := n.(*ast.CallExpr); ok {
-				if fn := Callee(nm.Info(), call); fn != nil && fn.Pkg() != nil && fn.Pkg().Path() == "sort" {
+				if fn := Callee(nm.Info(), call); fn != nil && callSorts(p, fn, 1) {
 					sorted = true
 				}
 			}
